@@ -30,6 +30,8 @@ func checkC17(c *Ctx) {
 	c.Rule("R17.3", "empty-line policy: a line completed by a newline is always logged (even if empty); Sync/Close log the pending partial line only when it is non-empty, and reset the buffer", 2)
 	c.Rule("R17.4", "fast path only when nothing is buffered; otherwise the fragment is appended before the buffered line is logged, and the buffer is reset afterwards", 1)
 	c.Rule("R17.5", "kept bytes are copies: the writer never stores the caller's slice", 1)
+	c.Rule("R17.6", "Write, Sync and Close are the only exported methods that reach the writer's state (no sibling entry point such as ReadFrom or WriteString, which io.Copy / io.WriteString would prefer)", 1)
+	c17EntryPoints(c, "R17.6")
 
 	c17Rules(c, "")
 }
